@@ -6,7 +6,7 @@ CONSTANTS
   BlobIds = {}
   ManIds = {}
   Cat <- FCat
-  UploadIds = {"u1", "u2"}
+  UploadIds = {"u1", "u2", "e1", "o1"}
   ImmChoices = {FALSE, TRUE}
   BlockSize = 8
   Pos <- FPos
